@@ -17,7 +17,7 @@ DevOf(p) == CASE p = "C01" -> {}
               [] p = "C02" -> {"D7", "D9", "D10"}
               [] p = "C03" -> {"D3", "D4", "D7", "D10", "D11"}
               [] p = "C04" -> {"D3", "D8", "D9", "D10"}
-              [] p = "C05" -> {"D4", "D6", "D10"}
+              [] p = "C05" -> {"D4", "D10"}
               [] p = "C06" -> {"D5", "D12"}
               [] p = "C10" -> {"D12"}
               [] p = "C13" -> {}
